@@ -50,6 +50,8 @@ func NewMergeIterator(iters []*Iterator) *MergeIterator {
 
 // SeekFirst moves cursor to the first item
 func (mit *MergeIterator) SeekFirst() {
+	// Drop the cursors of an earlier positioning
+	mit.h = mit.h[:0]
 	for _, it := range mit.iters {
 		it.SeekFirst()
 		if it.Valid() {
@@ -87,6 +89,8 @@ func (mit *MergeIterator) Next() {
 // Seek moves cursor to the specified item, if present
 func (mit *MergeIterator) Seek(itm unsafe.Pointer) bool {
 	var found bool
+	// Drop the cursors of an earlier positioning
+	mit.h = mit.h[:0]
 	for _, it := range mit.iters {
 		if it.Seek(itm) {
 			found = true
